@@ -55,6 +55,19 @@ where
         iodriver: IoDriver,
         config: BlobConfig,
     ) -> Result<Self> {
+        // File creation, header write and sync run as a separate task: if the future of the caller is
+        // dropped in the middle, the file must not be left without its header (such a file can't be
+        // read at the next start and would be treated as corrupted)
+        tokio::spawn(Self::open_new_task(name, iodriver, config))
+            .await
+            .map_err(|e| anyhow::anyhow!("blob creation task failed: {}", e))?
+    }
+
+    async fn open_new_task(
+        name: FileName,
+        iodriver: IoDriver,
+        config: BlobConfig,
+    ) -> Result<Self> {
         let BlobConfig {
             index: index_config,
             validate_data_during_index_regen,
